@@ -24,6 +24,8 @@ func leaves(thorough bool) []*Node {
 		NSlice(Sc(KUint8, false), NUint(KUint8, false, 'a')),
 		{T: Sc(KChan, false)}, {T: Sc(KFunc, false)}, {T: Sc(KComplex, false), F: 1},
 		{T: Sc(KUintptr, false), U: 1},
+		// slices / arrays of NAMED byte-like and string-like element types (kind checks vs convertibility differ here)
+		NSlice(Sc(KUint8, true), NUint(KUint8, true, 'a')), NArray(Sc(KUint8, false), NUint(KUint8, false, 'a')), NSlice(Sc(KString, true), NStr(true, "a")),
 	}
 	if thorough {
 		l = append(l,
@@ -34,7 +36,11 @@ func leaves(thorough bool) []*Node {
 			str("abc"), str("a+"), str("1.5"), str("/a/b"), NJSON("-1"), NJSON("99999999999999999999"),
 			NPtr(NStr(true, "a")), NPtr(NPtr(str("a"))), NNilPtr(TStr), NPtr(NNilPtr(TInt)),
 			&Node{T: Sc(KChan, false), Nil: true}, &Node{T: Sc(KFunc, false), Nil: true},
-			NArray(Sc(KUint8, false), NUint(KUint8, false, 'a')), NSlice(Sc(KUint8, true), NUint(KUint8, true, 'a')),
+			NSlice(Sc(KInt8, false), NInt(KInt8, false, 97)), NSlice(Sc(KUint16, false), NUint(KUint16, false, 97)),
+			// typed nil containers, pointers to containers, containers of pointers
+			&Node{T: NSlice(TInt).T, Nil: true}, &Node{T: NMap(TStr, TInt).T, Nil: true}, NPtr(NSlice(TInt, one)), NPtr(NMap(TStr, TAny, str("a"), one)),
+			NMap(TStr, &Type{K: KPtr, Elem: TInt}, str("a"), NPtr(one), str("b"), NNilPtr(TInt)), NArray(NSlice(TInt).T, NSlice(TInt, one), NSlice(TInt)),
+			NSlice(TAny, NPtr(one), NPtr(str("a")), NNilAny()),
 		)
 	}
 	return l
@@ -93,7 +99,7 @@ func docs(thorough bool) []*Node {
 		for i, e := range red {
 			for _, c := range containers(e, red[(i+1)%len(red)]) {
 				cs := containers(c, e)
-				mids = append(mids, cs[0], cs[4], cs[5], cs[6], cs[7], cs[11])
+				mids = append(mids, cs...)
 			}
 		}
 	} else {
